@@ -12,7 +12,7 @@ def main():
     # data patterns never match End (regexes incl. wildcard / inverted sets; literal matches list characters only)
     from ..rtc import run as rrun, regex_contract
     ps = gen.regex_programs(common.tier() == "thorough", common.seed())
-    outs = rrun.run(ps, [["-O1", "-feof-support"]], [regex_contract.install], time_limit=10)
+    outs = rrun.run(ps, [["-O1", "-feof-support"]], [regex_contract.install], time_limit=60)
     n = 0
     for o in outs:
         if o["error"]:
@@ -24,10 +24,49 @@ def main():
                 rep.bounded_violation(Finding("C17", "C17/rtc/RegexMatch.convert/never-consumes-End", f"{o['prog']}|End", f"{o['prog']}: {f['msg']}",
                                       replay={"program": o["prog"], "source": next(p["src"] for p in ps if p["name"] == o["prog"])}, replayed=True))
     rep.bounded_count("regex DFAs checked never to consume End (product states x symbols)", n)
+    # the compiled (optimised) parsers at end-of-input: wildcards, inverted sets, `end`, `wait end` behind case-else / catch / optional /
+    # loop exits, run on all short inputs followed by end(), against the reading in which end-of-input is matched by `end` only
+    import multiprocessing, os
+    from . import c01
+    eps = end_programs()
+    thorough = common.tier() == "thorough"
+    jobs = [(p, [["-O0"], ["-O3"]] + ([["-O1"], ["-O2"]] if thorough else []), 400 if not thorough else 1500, 150 if not thorough else 800, common.seed(), None) for p in eps]
+    with multiprocessing.get_context("fork").Pool(min(16, os.cpu_count() or 4)) as pool:
+        results = pool.map(c01._work, jobs, chunksize=2)
+    src_of = {p["name"]: p["src"] for p in eps}
+    ncmp = nrun = 0
+    for o in results:
+        nrun += o["status"] == "checked"
+        ncmp += o["checked"]
+        for b in o["bad"] + o["known"]:
+            rep.bounded_violation(Finding("C17", f"C17/compiled/{o['name']}", f"{o['name']}|{' '.join(b['flags'])}|{b['input']}|{'+'.join(b['kinds'])}",
+                                          f"{o['name']} [{' '.join(b['flags'])}] input {b['input']}: {b['msg'][:400]}",
+                                          replay={"source": src_of[o["name"]], "flags": b["flags"], "input": b["input"]}, replayed=True))
+    rep.bounded_count("end-of-input programs: inputs on which the generated parser (feed ... end) was compared with the reading", ncmp)
+    rep.coverage["end_programs_run"] = nrun
     rep.fn("RegexMatch._create_dfa_state (End routed to the error path)", "EndMatch.convert")
     rep.coverage["bound"] = "per program; the End-exclusion of regexes is a run-time contract over the generated regex set (bounded)"
     return rep.finish(spec["text"] + " Data patterns never consuming End: End clause of the RegexMatch.convert contract over the generated regex set (bounded-exact).", checker_cmd="./check C17")
 
 
+def end_programs():
+    decl = "out int n = 0;\nhook h;\nhook g;\n"
+    xs = ['/./; h();', '/[^a]/; h();', 'wait end; h();', 'end; h();', '/[^a]*/; end; h();', 'wait "x"; h();', '/.+/; h();', 'b/[^61]/; h();', '/[^a]?/; "b"; h();']
+    ctxs = ['case {{ "a" -> {{ g(); }} else -> {{ {x} }} }}', 'try {{ "ab"; g(); }} catch {{ {x} }}', '"q"; optional {{ "r"; g(); }} {x}', 'loop {{ "a"; optional {{ "!"; break; }} }} {x}',
+            'case {{ "ab" -> {{ g(); }} "a" -> {{ {x} }} }}', 'if n == 0 {{ {x} }} else {{ "z"; }}', 'foreach {{ {x} }} do {{ n = [n + 1]; }}', '{x}']
+    out = []
+    k = 0
+    for c in ctxs:
+        for x in xs:
+            out.append({"name": f"end/{k}", "src": decl + "parser { " + c.format(x=x) + " }\n"})
+            k += 1
+    return out
+
+
 def replay(path):
+    import json
+    d = json.load(open(path))["input"]
+    if "input" in d:
+        from . import c01
+        return c01.replay(path)
     return P.replay_for("C17", path)
